@@ -83,7 +83,12 @@ def compare(ctx, a, b, label, key=None, limit=400, info=None):
         n += 1
         if n > limit:
             break
-        c = same_leaf(la[p], lb[p])
+        x, y = la[p], lb[p]
+        if p.endswith("/Warnings") and isinstance(x, str) and isinstance(y, str):
+            # a warnings cell is a set of tokens: rail_rep() joins a Python set, whose order depends on the interpreter's hash seed and on the
+            # order of the rows it was filled from - the token ORDER is not part of any property (C08 states the union)
+            x, y = " ".join(sorted(x.replace(",", " ").split())), " ".join(sorted(y.replace(",", " ").split()))
+        c = same_leaf(x, y)
         if c.concrete() and c.t:
             continue
         ok = ctx.check(label, c, key=key, info={"at": p, **(info or {})}) and ok
